@@ -24,13 +24,15 @@ pub struct Cfg {
     pub key_salt: u64,
     pub n_keys: u16,
     pub n_meta: u8,
+    /// record limit per blob (None = practically unlimited: rotation only through the lifecycle API)
+    pub max_records: Option<u64>,
 }
 
 impl Cfg {
     pub fn to_json(&self) -> Value {
         json!({"keylen": self.keylen, "bloom": self.bloom, "group": self.group, "allow_dup": self.allow_dup,
                "mt": self.mt, "validate_data": self.validate_data, "ignore_corrupted": self.ignore_corrupted,
-               "max_dirty": self.max_dirty, "key_salt": self.key_salt, "n_keys": self.n_keys, "n_meta": self.n_meta})
+               "max_dirty": self.max_dirty, "key_salt": self.key_salt, "n_keys": self.n_keys, "n_meta": self.n_meta, "max_records": self.max_records})
     }
     pub fn from_json(v: &Value) -> Option<Cfg> {
         Some(Cfg {
@@ -45,12 +47,13 @@ impl Cfg {
             key_salt: v.get("key_salt")?.as_u64()?,
             n_keys: v.get("n_keys")?.as_u64()? as u16,
             n_meta: v.get("n_meta")?.as_u64()? as u8,
+            max_records: v.get("max_records").and_then(|x| x.as_u64()),
         })
     }
     pub fn default_for(n_keys: u16, n_meta: u8) -> Cfg {
         Cfg {
             keylen: 8, bloom: 1, group: 2, allow_dup: true, mt: true, validate_data: false,
-            ignore_corrupted: false, max_dirty: None, key_salt: 1, n_keys, n_meta,
+            ignore_corrupted: false, max_dirty: None, key_salt: 1, n_keys, n_meta, max_records: None,
         }
     }
 }
@@ -242,7 +245,7 @@ pub fn builder_for(cfg: &Cfg, dir: &Path) -> Builder {
         .work_dir(dir)
         .blob_file_name_prefix("t")
         .max_blob_size(1 << 40)
-        .max_data_in_blob(1_000_000_000)
+        .max_data_in_blob(cfg.max_records.unwrap_or(1_000_000_000))
         .set_bloom_filter_group_size(cfg.group)
         .set_deferred_index_dump_times(Duration::from_millis(1), Duration::from_millis(3))
         .set_validate_data_during_index_regen(cfg.validate_data);
@@ -981,4 +984,21 @@ impl<const N: usize> Loose<N> {
             let _ = BloomProvider::filter_memory_allocated(s).await;
         }
     }
+}
+
+/// ids of the blob files in a directory (sorted)
+pub fn dir_ids(dir: &Path) -> Vec<usize> {
+    let mut v = Vec::new();
+    if let Ok(rd) = std::fs::read_dir(dir) {
+        for e in rd.flatten() {
+            let p = e.path();
+            if p.is_file() && p.extension().and_then(|x| x.to_str()) == Some("blob") {
+                if let Some(id) = crate::tap::blob_id_of(&p) {
+                    v.push(id);
+                }
+            }
+        }
+    }
+    v.sort();
+    v
 }
